@@ -317,7 +317,7 @@ static void run_lane(const std::string &proto, const std::string &engine, int tm
       for (int i = 0; ok && i < (int)w.rq.size(); i++) ok = lane_judge(w, tag, i, true, false, 0);
       if (ok) printf("@OUTCOME lane L3 N=%d: chain of synchronously answered requests, every callback exactly once, none at the later ticks\n", N);
       g_lane_states++; g_lane_execs += w.execs; }
-    // L4 (switch C14_REENTRANT_DUP=1, DEFAULT OFF because the unchanged library fails it - see the check's report): the completion callback of #0
+    // L4 (on by default; C14_REENTRANT_DUP=0 turns it off; before the repair in /repo the library failed it): the completion callback of #0
     // delivers a copy of #0's own response re-entrantly: (a) from inside the response callback (a duplicate), (b) from inside the timeout callback (a late response)
     if (reentrant_dup) for (int variant = 0; variant < 2; variant++) { Virt vt; Lane w(proto, engine, tmo); snprintf(tag, sizeof tag, "L4%c %s/%s timeout=%d N=%d", 'a' + variant, proto.c_str(), engine.c_str(), tmo, N);
       for (int i = 0; i < N; i++) w.issue();
@@ -335,7 +335,7 @@ int main(int argc, char **argv) {
   std::string proto = argc > 1 ? argv[1] : "raw", engine = argc > 2 ? argv[2] : "epoll";
   if (proto == "lane") {
     hx::install_crash_reporter("C14-rpc-lane-crash");
-    bool dup = hx::env_int("C14_REENTRANT_DUP", 0) != 0;
+    bool dup = hx::env_int("C14_REENTRANT_DUP", 1) != 0;      // on by default since the repair in /repo (C14_REENTRANT_DUP=0 turns it off)
     for (const char *p : {"raw", "header", "packet"}) for (const char *e : {"epoll", "select"}) for (int t : {1, 2, 3}) {
       hx::set_current(std::string("lane ") + p + "/" + e + " timeout=" + std::to_string(t));
       run_lane(p, e, t, dup); }
